@@ -164,7 +164,7 @@ def run(ctx):
 
 
 def run_(ctx):
-    classes = {"valid", "valid10", "nospace", "badchunk", "chunkend", "badurl", "hugeline", "badstart", "badcl", "nonascii",
+    classes = {"rbadchunk", "rchunkend", "rhugeline", "valid", "valid10", "nospace", "badchunk", "chunkend", "badurl", "hugeline", "badstart", "badcl", "nonascii",
                "manyheaders", "truncated", "random", "mutated", "continue", "badredirect"}
     consts = {"Conns": {1, 2}, "Classes": classes, "MaxSteps": 3}
     r = ctx.tlc("http", "Robust", core.cfg_text(constants=dict(consts, Classes={"valid", "nospace", "random"}),
@@ -238,7 +238,8 @@ def run_(ctx):
                 if err:
                     info["err"] = err
                 ctx.case(("client", cls, data[:200], bytewise))
-                record([{"c": 1, "cls": cls, "out": out}], info)
+                mcls = {"badchunk": "rbadchunk", "chunkend": "rchunkend", "hugeline": "rhugeline"}.get(cls, cls)
+                record([{"c": 1, "cls": mcls, "out": out}], info)
     res = core.validate_traces(ctx, "http", "RobustTrace",
                                core.cfg_text(spec="TSpec", constants=dict(consts, MaxSteps=100), constraints=["Progress"],
                                              invariants=["NeverRaised"]), traces)
@@ -249,6 +250,8 @@ def run_(ctx):
             e = tr[k - 1]
             if e["out"] == "raised":
                 what = "servicing raised %s" % info.get("err")
+            elif e["cls"].startswith("r") and e["cls"][1:] in ("badchunk", "chunkend", "hugeline"):
+                what = "a response that breaks the framing rules was not reported through the error flag (outcome %s)" % e["out"]
             else:
                 what = "a well formed request on clean connection %d was not served (outcome %s)" % (e["c"], e["out"])
             ctx.violation("%s, input class %s %r%s: %s" % (info["side"], info["cls"], info["data"][:120].encode("latin-1"),
